@@ -182,6 +182,11 @@ def insertSorted (k : Nat) : List Nat → List Nat
 def compositionKeys (subs : List Species) : List Nat :=
   subs.foldl (fun acc sp => sp.comp.foldl (fun acc kv => insertSorted kv.1 acc) acc) []
 
+/-- `Substance.composition_keys(substances, skip_keys)`: as above, keys in `skip_keys` left out.
+    (A substance with `composition = None` is skipped by the Python; it contributes nothing, like an empty dict.) -/
+def compositionKeysSkip (subs : List Species) (skip : List Nat) : List Nat :=
+  subs.foldl (fun acc sp => sp.comp.foldl (fun acc kv => if skip.contains kv.1 then acc else insertSorted kv.1 acc) acc) []
+
 /-- `ReactionSystem.composition_balance_vectors()` → `(B, comp_keys)`;
     `B[k][j] = substances[j].composition.get(comp_keys[k], 0)` -/
 def compositionBalanceVectors (s : EqSystem) : List (List Int) × List Nat :=
@@ -472,6 +477,85 @@ def eqConstantsDefault (rxnParams : List α) : List α := eqConstants [] rxnPara
 /-- the parameter vector `EqSystem.root / _solve` hands to the solver:
     `np.concatenate((init_concs, [float(elem) for elem in self.eq_constants()]))` -/
 def solverParams (initConcs rxnParams : List α) : List α := initConcs ++ eqConstantsDefault rxnParams
+
+/-! ## `new_eq_params = False`: the constants are the reactions' own -/
+
+/-- `_inits_and_eq_params(params)` with `new_eq_params=False`: `eq_params = params[ns:]`, `assert not eq_params`
+    (AssertionError when something follows the `ns` initial concentrations), then `eq_params = None`, so that
+    `eq_constants(non_precip_rids, None, small)` takes `[eq.param for eq in self.rxns]` (`rxnParams`).  The result is the
+    new-style parameter vector with exactly the same effect: `params ++ rxnParams`. -/
+def ownParams (s : EqSystem) (rxnParams params : List α) : Except String (List α) :=
+  if params.length > s.ns then .error "AssertionError"
+  else if params.length < s.ns then .error "shape"
+  else .ok (params ++ rxnParams)
+
+/-- `NumSysLin(eqsys, new_eq_params=False).f(yvec, params)` -/
+def numSysLinOwnF (s : EqSystem) (precipitates : List Bool) (small : α) (rxnParams y params : List α) :
+    Except String (List α) :=
+  match ownParams s rxnParams params with
+  | .error e => .error e
+  | .ok p => numSysLinF s precipitates small y p
+
+/-- `NumSysSquare(eqsys, new_eq_params=False).f` -/
+def numSysSquareOwnF (s : EqSystem) (precipitates : List Bool) (small : α) (rxnParams y params : List α) :
+    Except String (List α) :=
+  numSysLinOwnF s precipitates small rxnParams (y.map fun yi => yi * yi) params
+
+/-- `NumSysLinRel(eqsys, new_eq_params=False).f` -/
+def numSysLinRelOwnF [Min α] (s : EqSystem) (precipitates : List Bool) (small : α) (rxnParams y params : List α) :
+    Except String (List α) :=
+  match ownParams s rxnParams params with
+  | .error e => .error e
+  | .ok p => numSysLinRelF s precipitates small y p
+
+/-- `NumSysLog(eqsys, new_eq_params=False).f` -/
+def numSysLogOwnF [HasLog α] [HasExp α] (s : EqSystem) (precipitates : List Bool) (small : α)
+    (rxnParams y params : List α) : Except String (List α) :=
+  match ownParams s rxnParams params with
+  | .error e => .error e
+  | .ok p => numSysLogF s precipitates small y p
+
+/-- `EqSystem.stoichs_constants()` with all defaults: `(stoichs(), eq_constants())` -/
+def stoichsConstantsDefault (s : EqSystem) (rxnParams : List α) : Except String (List (List Int) × List α) :=
+  match stoichs s [] with
+  | .error e => .error e
+  | .ok A => .ok (A, eqConstantsDefault rxnParams)
+
+/-! ## The change of variables of each formulation (`pre_processor` / `post_processor`)
+
+`pre_processor(x, params)` maps concentrations to the solver's variables, `post_processor` maps back.
+The residual `f` is a function of the transformed variable. -/
+
+/-- `abs` -/
+def absV [LT α] [DecidableLT α] (x : α) : α := if x < zero then -x else x
+
+/-- `NumSysSquare.pre_processor`: `np.sqrt(np.abs(x))` -/
+def squarePre [LT α] [DecidableLT α] [HasSqrt α] (x : List α) : List α := x.map fun v => HasSqrt.sqrt (absV v)
+/-- `NumSysSquare.post_processor`: `x ** 2` -/
+def squarePost (y : List α) : List α := y.map fun v => v * v
+
+/-- `NumSysLog.pre_processor`: `np.log(np.asarray(x) + NumSysLog.small)` ("zero conc. ~= small") -/
+def logPre [HasLog α] (small : α) (x : List α) : List α := x.map fun v => HasLog.log (v + small)
+/-- `NumSysLog.post_processor`: `np.exp(x)` -/
+def logPost [HasExp α] (y : List α) : List α := y.map HasExp.exp
+
+/-- `NumSysLinRel.pre_processor`: `x / self.max_concs(params)` (elementwise; `m = upper_conc_bounds(init_concs)`) -/
+def linRelPre (m x : List α) : List α := List.zipWith (· / ·) x m
+/-- `NumSysLinRel.post_processor`: `x * self.max_concs(params)` -/
+def linRelPost (m y : List α) : List α := List.zipWith (· * ·) y m
+
+/-! ## `equilibrium_quotient` for a 2-D array of concentrations (one state per row) -/
+
+/-- `equilibrium_quotient(concs, stoich)` with `concs.ndim == 2`: `tot = ones(nrows)`, then per substance column
+    `tot *= conc ** nr` — one quotient per row -/
+def equilibriumQuotient2d (rows : List (List α)) (stoich : List Int) : Except String (List α) :=
+  rows.mapM fun row => equilibriumQuotient row stoich
+
+/-- `EqSystem.equilibrium_quotients(concs)` for 2-D `concs`: per reaction the list of per-row quotients -/
+def equilibriumQuotients2d (s : EqSystem) (rows : List (List α)) : Except String (List (List α)) :=
+  match stoichs s [] with
+  | .error e => .error e
+  | .ok A => A.mapM fun st => equilibriumQuotient2d rows st
 
 end Numeric
 
